@@ -26,15 +26,17 @@ from sx import Sym, Str
 
 PROP = "C10"
 PROP_FILE = "C10_EntJson"
-THEOREMS = ["c10_value_rt", "c10_reserved", "c10_context_rt", "c10_context_rt_refuted", "c10_implicit_explicit_partial"]
+THEOREMS = ["c10_value_rt", "c10_reserved", "c10_context_rt", "c10_context_rt_refuted", "c10_context_rt_fixed",
+            "c10_entity_rt", "c10_implicit_explicit"]
 LEVEL = "proof" if THEOREMS else "exploration"
 
 MANIFEST = {
     "text": "Gallina transcription of the entity/context JSON layer (CedarValueJson::from_expr/from_value with the "
             "reserved-key refusal, the untagged deserialisation of CedarValueJson / EntityUidJson / ExtnValueJson, "
-            "ValueParser::val_into_restricted_expr with its type-directed cases and fall-backs, EntityJson) on JSON "
-            "trees; theorems: value round trip, refusal iff a reserved key occurs, implicit forms parse like the explicit "
-            "form; tied to /repo by differential execution (serialised tree, parse result on implicit/explicit variants "
+            "ValueParser::val_into_restricted_expr with its type-directed cases and fall-backs, EntityJson / "
+            "parse_ejson, the store constructor with TC and schema actions) on JSON trees; theorems: value, context and "
+            "entity round trip, refusal iff a reserved key occurs, every per-node implicit/explicit variant (any depth "
+            "inside sets and closed records) parses like the explicit form; tied to /repo by differential execution (serialised tree, parse result on implicit/explicit variants "
             "and mutated documents) and an implementation-level round-trip / variant-agreement oracle.",
     "technique": "proof (Coq, structural induction on values and types) + correspondence by differential execution + "
                  "round-trip / metamorphic oracle on the implementation",
@@ -569,6 +571,9 @@ def check_ctx_rt(case, res):
         if "to_json_error" not in r:
             bad.append("a record with a reserved key was serialised instead of refused")
         return bad
+    if any(k in RESERVED for k, _ in pairs) and "to_json_error" in r:
+        return bad      # a reserved TOP-LEVEL key refused at serialisation (the behaviour with the fix for
+                        # C10:context_top_level_reserved_key, = EntJson.context_to_json_fixed): nothing is altered
     if "json" not in r:
         return bad + ["context serialisation failed on representable data"]
     if canon_json(r["json"]) != canon_json({k: explicit(v) for k, v in pairs}):
@@ -725,12 +730,53 @@ def sty_sx(t):
     raise ValueError(t)
 
 
-def model_cmds_of(case):
+def ent_sx(e, anc):
+    """entity dict + ancestor list [{"type","id"}] -> (ent TY ID attrs tags anc)"""
+    return [Sym("ent"), Str(e["uid"]["type"]), Str(e["uid"]["id"]),
+            [[Str(k), rval_sx(v)] for k, v in e["attrs"]], [[Str(k), rval_sx(v)] for k, v in e["tags"]],
+            [[Str(u["type"]), Str(u["id"])] for u in anc]]
+
+
+def sx_ent(s):
+    """(ent ...) -> the harness's dump shape (without `sem`)"""
+    anc = {(Str(t).text(), Str(i).text()) for t, i in s[5]}
+    return {"uid": {"type": Str(s[1]).text(), "id": Str(s[2]).text()},
+            "attrs": [[Str(k).text(), sx_rval(x)] for k, x in s[3]],
+            "tags": [[Str(k).text(), sx_rval(x)] for k, x in s[4]],
+            "ancestors": [{"type": t, "id": i} for t, i in sorted(anc)]}
+
+
+def dump_ent_sx(d):
+    """an entity of a harness dump -> (ent ...)"""
+    d = strip_sem(d)
+    return ent_sx({"uid": d["uid"], "attrs": d["attrs"], "tags": d["tags"]}, d["ancestors"])
+
+
+def eschema_sx(rs):
+    out = []
+    for name in sorted(rs["etypes"]):
+        i = rs["etypes"][name]
+        attrs = sorted(i["attrs"], key=lambda a: cp_key(a[0]))
+        out.append([Str(S.join_name(name)),
+                    [[Str(a), sty_sx(t), Sym("true" if r else "false")] for a, t, r in attrs],
+                    Sym("true" if i["open"] else "false"),
+                    Sym("none") if i["tags"] is None else [Sym("some"), sty_sx(i["tags"])]])
+    return [Sym("some"), out]
+
+
+def model_cmds_of(case, schema_actions):
     """[(index of the Rust answer it is compared with, what, sexp command)]"""
     out = []
-    if case["kind"] == "ctx_rt":
+    kind = case["kind"]
+    dockind = case["cmds"][0].get("kind")
+    if kind == "ctx_rt":
         out.append((0, "to_json", [Sym("entjson"), Sym("ctx_to_json"), [[Str(k), rval_sx(v)] for k, v in case["pairs"]]]))
-    elif case["kind"] in ("variants_context", "paths") and case["cmds"][0]["kind"] == "context":
+    elif kind == "rt":
+        ents = case["entities"]
+        cl = closure(ents)
+        stored = [ent_sx(e, [{"type": t, "id": i} for t, i in cl[ukey(e["uid"])]]) for e in ents]
+        out.append((0, "store_to_json", [Sym("entjson"), Sym("store_to_json"), stored]))
+    elif kind in ("variants_context", "paths") and dockind == "context":
         for i, c in enumerate(case["cmds"]):
             if "json" not in c or has_float(c["json"]):
                 continue
@@ -738,7 +784,48 @@ def model_cmds_of(case):
                 continue
             ty = [Sym("some"), sty_sx(case["ctx_type"])] if "schema" in c else Sym("none")
             out.append((i, "parse", [Sym("entjson"), Sym("ctx_parse"), ty, json_sx(c["json"])]))
+    elif kind in ("variants_entities", "variants_entity", "paths") and dockind in ("entities", "entity") \
+            and case.get("_eschema") is not None:
+        acts = [dump_ent_sx(a) for a in schema_actions.get(case.get("sid"), [])]
+        for i, c in enumerate(case["cmds"]):
+            if "json" not in c or has_float(c["json"]):
+                continue
+            sch = case["_eschema"] if "schema" in c else Sym("none")
+            if c["kind"] == "entities":
+                out.append((i, "store_parse", [Sym("entjson"), Sym("store_parse"), sch, acts, json_sx(c["json"])]))
+            else:
+                out.append((i, "ent_parse", [Sym("entjson"), Sym("ent_parse"), sch, json_sx(c["json"])]))
     return out
+
+
+def compare_entity_level(what, cmd, rust, model):
+    """entity / store level: accept/reject and the value; WHICH error comes first depends on hash order"""
+    if not isinstance(model, list):
+        return "model could not decode the command: %r" % (model,)
+    if what == "store_to_json":
+        if model[0] == "ok":
+            if "json" not in rust:
+                return "model serialises the store, implementation refuses"
+            return None if canon_json(sx_json(model[1])) == canon_json(rust["json"]) else "serialised stores differ"
+        return None if "to_json_error" in rust else "model refuses (%s), implementation serialises" % model[1]
+    v = verdict(rust)
+    if model[0] == "ok":
+        if what == "store_parse":
+            m = canon_store([sx_ent(e) for e in model[1]])
+            calls = [x for e in model[1] for _, x in list(e[3]) + list(e[4])]
+        else:
+            m = canon_entity(sx_ent(model[1]))
+            calls = [x for _, x in list(model[1][3]) + list(model[1][4])]
+        if v[0] == "ok":
+            return None if strip_sem(v[1]) == m else "parsed %s differ" % ("stores" if what == "store_parse" else "entities")
+        if v[0] == "err" and v[1] == "invalid" and "schema" in cmd:
+            return None     # the conformance check that follows schema-based parsing (C11) is not part of this model
+        if v[0] == "err" and v[2] == "EntityAttributeEvaluation" and not all_calls_pool_valid(calls):
+            return None     # evaluation of a constructor call on a string outside the known-good pool (C07)
+        return "model accepts, implementation rejects %r" % (v[:3],)
+    if v[0] == "ok":
+        return "model rejects (%s), implementation accepts" % model[1]
+    return None
 
 
 def bad_ext_in(j):
@@ -773,6 +860,8 @@ def compare_model(what, cmd, rust, model):
     if what == "to_json":
         if model[0] == "ok":
             if "json" not in rust:
+                if any(k in RESERVED for k, _ in cmd.get("pairs", [])):
+                    return None     # agrees with EntJson.context_to_json_fixed (top-level reserved key refused)
                 return "model serialises, implementation refuses"
             return None if canon_json(sx_json(model[1])) == canon_json(rust["json"]) else "serialised trees differ"
         return None if "to_json_error" in rust else "model refuses (%s), implementation serialises" % model[1]
@@ -845,6 +934,7 @@ def gen_cases(rng, tier):
                 cmds.append({"cmd": "entjson_parse", "kind": "entities", "schema": js,
                              "json": [entity_variant(sg.rs, e, rng, m) for e in ents]})
             cases.append({"kind": "variants_entities", "stream": "schema", "sid": sid, "entities": ents, "schema": js,
+                          "_eschema": eschema_sx(sg.rs),
                           "modes": modes, "cmds": cmds, "needs_actions": True})
             # single entities
             e = rng.choice(ents)
@@ -854,6 +944,7 @@ def gen_cases(rng, tier):
                 for m in modes1:
                     cmds.append({"cmd": "entjson_parse", "kind": "entity", "schema": js, "json": entity_variant(sg.rs, e, rng, m)})
                 cases.append({"kind": "variants_entity", "stream": "schema", "sid": sid, "entity": e, "schema": js,
+                              "_eschema": eschema_sx(sg.rs),
                               "modes": modes1, "cmds": cmds})
         # contexts
         for a in acts:
@@ -873,7 +964,7 @@ def gen_cases(rng, tier):
                 cases.append({"kind": "variants_context", "stream": "schema", "sid": sid, "pairs": pairs, "schema": js,
                               "action": au, "modes": modes, "cmds": cmds, "ctx_type": rc})
     # ---- malformed stream: mutated documents, value path vs text path, without and with schema
-    seeds = [c for c in cases if c["kind"] in ("variants_entities", "variants_context")]
+    seeds = [c for c in cases if c["kind"] in ("variants_entities", "variants_entity", "variants_context")]
     nmut = 1500 if quick else 40000
     for i in range(nmut):
         c = rng.choice(seeds)
@@ -895,7 +986,7 @@ def gen_cases(rng, tier):
             t["text"] = json.dumps(doc, ensure_ascii=rng.random() < 0.5)
             cmds.append(t)
         cases.append({"kind": "paths", "stream": "malformed", "mutation": name, "schema": c["schema"], "cmds": cmds,
-                      "ctx_type": c.get("ctx_type"), "sid": c["sid"]})
+                      "ctx_type": c.get("ctx_type"), "sid": c["sid"], "_eschema": c.get("_eschema")})
     # textual near-misses that a JSON tree cannot express
     texts = [('entities', '[{"uid":{"type":"A","id":"x"},"attrs":{"a":1,"a":2},"parents":[]}]'),
              ('entities', '[{"uid":{"type":"A","id":"x"},"attrs":{"a":{"k":1,"k":2}},"parents":[]}]'),
@@ -942,19 +1033,20 @@ def run(rep, tier, seed):
     cases = gen_cases(rng, tier)
     results, nevals = run_cases(harness, cases)
     # model side
-    mcmds, mmeta = [], []
-    for ci, c in enumerate(cases):
-        for (ri, what, cmd) in model_cmds_of(c):
-            mcmds.append(cmd)
-            mmeta.append((ci, ri, what))
-    mres = fw.run_model(driver, mcmds)
-    corr = {"compared": 0, "differences": 0, "to_json": 0, "parse_typed": 0, "parse_untyped": 0}
+    corr = {"compared": 0, "differences": 0, "to_json": 0, "parse_typed": 0, "parse_untyped": 0, "store_to_json": 0,
+            "store_parse_typed": 0, "store_parse_untyped": 0, "ent_parse_typed": 0, "ent_parse_untyped": 0}
     oracle_bad = set()
     # the schema's action entities, as reported by Schema::action_entities (used by oracle 2)
     schema_actions = {}
     for c, r in zip(cases, results):
         if c["kind"] == "rt" and c.get("conformant") and isinstance(r[0].get("schema_actions"), list):
             schema_actions.setdefault(c["sid"], strip_and_keep(r[0]["schema_actions"]))
+    mcmds, mmeta = [], []
+    for ci, c in enumerate(cases):
+        for (ri, what, cmd) in model_cmds_of(c, schema_actions):
+            mcmds.append(cmd)
+            mmeta.append((ci, ri, what))
+    mres = fw.run_model(driver, mcmds)
     stats = {"by_kind": {}, "by_stream": {}, "refused": 0, "round_tripped": 0, "variants": 0, "mutations": {},
              "malformed_accept": 0, "malformed_reject": 0, "reject_classes": {}, "ctx_finding_hits": 0, "problems": 0}
     distinct = set()
@@ -1000,13 +1092,28 @@ def run(rep, tier, seed):
     for (ci, ri, what), cmd, m in zip(mmeta, mcmds, mres):
         c = cases[ci]
         corr["compared"] += 1
-        corr["to_json" if what == "to_json" else ("parse_typed" if "schema" in c["cmds"][ri] else "parse_untyped")] += 1
-        d = compare_model(what, c["cmds"][ri], results[ci][ri], m)
+        if what in ("to_json", "store_to_json"):
+            corr[what] += 1
+        else:
+            corr[what + ("_typed" if "schema" in c["cmds"][ri] else "_untyped")] += 1
+        if what in ("parse", "store_parse", "ent_parse") and isinstance(m, list):
+            rv = verdict(results[ci][ri])[0]
+            k = ("model_accepts" if m[0] == "ok" else "model_rejects") + "/" + ("impl_accepts" if rv == "ok" else "impl_rejects")
+            corr.setdefault("outcomes_" + what, {})
+            corr["outcomes_" + what][k] = corr["outcomes_" + what].get(k, 0) + 1
+        if what in ("to_json", "parse"):
+            d = compare_model(what, c["cmds"][ri], results[ci][ri], m)
+        else:
+            d = compare_entity_level(what, c["cmds"][ri], results[ci][ri], m)
         if d and id(c) not in oracle_bad:
             corr["differences"] += 1
             rep.violation({"property": PROP, "kind": "correspondence: " + d,
-                           "model_function": "EntJson.context_to_json" if what == "to_json" else "EntJson.context_from_json / json_to_value",
-                           "rust_entry_point": "Context::to_json_value" if what == "to_json" else "Context::from_json_value",
+                           "model_function": {"to_json": "EntJson.context_to_json", "parse": "EntJson.context_from_json / json_to_value",
+                                              "store_to_json": "EntJson.store_to_json / entity_to_json",
+                                              "store_parse": "EntJson.store_from_json", "ent_parse": "EntJson.entity_from_json"}[what],
+                           "rust_entry_point": {"to_json": "Context::to_json_value", "parse": "Context::from_json_value",
+                                                "store_to_json": "Entities::to_json_value", "store_parse": "Entities::from_json_value",
+                                                "ent_parse": "Entity::from_json_value"}[what],
                            "theorems_whose_transfer_is_lost": THEOREMS,
                            "rust_cmd": c["cmds"][ri], "model_cmd": __import__("sx").dump(cmd), "rust": strip_sem(results[ci][ri]),
                            "model": repr(m)}, no_failing_input=True)
@@ -1051,7 +1158,7 @@ def strip_and_keep(store):
 
 
 def slim(c):
-    out = {k: v for k, v in c.items() if k not in ("schema_actions",)}
+    out = {k: v for k, v in c.items() if k not in ("schema_actions",) and not k.startswith("_")}
     return json.loads(json.dumps(out, default=list))
 
 
